@@ -13,6 +13,82 @@ import re
 from . import mir, smt
 
 
+FNS = None  # the crate's function table (set by the runner): lets call-order obligations see through local helper functions
+
+_COMMON = {"new", "len", "get", "put", "finalize", "default", "clone", "from", "into", "next", "push", "insert", "hash", "serialize", "deserialize", "drop",
+           "flush", "write", "read", "open", "close", "path", "iter", "take", "map", "unwrap", "expect", "call", "poll", "deref", "eq", "ne", "cmp", "fmt"}
+
+
+class BlockSet(list):
+    """blocks whose call matches a pattern *or* calls a local helper that may make such a call; remembers the patterns so that
+    no_path_query can shrink an `avoid` set to the blocks that certainly make the call (helpers that call it on every Ok path)"""
+
+    def __init__(self, blocks=(), parts=()):
+        super().__init__(blocks)
+        self.parts = list(parts)
+
+    def __add__(self, other):
+        return BlockSet(list(self) + list(other), self.parts + list(getattr(other, "parts", [("__plain__", None, list(other))])))
+
+    def __radd__(self, other):
+        return BlockSet(list(other) + list(self), [("__plain__", None, list(other))] + self.parts)
+
+
+def _resolve_helper(callee):
+    """local function (of the crate being analysed) a call goes to, if it can be told by its name alone"""
+    if FNS is None or callee is None or callee.startswith("<"):
+        return None
+    seg = re.sub(r"::<[^<>]*(<[^<>]*>[^<>]*)*>", "", callee).split("::")[-1]
+    if len(seg) < 8 or seg in _COMMON or not re.match(r"[a-z_][a-z0-9_]*$", seg):
+        return None
+    cands = [f for n, f in FNS.items() if re.search(r"(^|::)%s$" % re.escape(seg), n)]
+    if len(cands) != 1:
+        return None
+    body = [f for n, f in FNS.items() if n == cands[0].name + "::{closure#0}" and "Poll<" in (f.ret or "")]
+    return body[0] if body else cands[0]
+
+
+_summary_cache = {}
+
+
+def _calls(fn, pattern, must, depth=0):
+    """does `fn` (transitively through local helpers, depth <= 3) make a call matching `pattern` - on some path (may) / on every
+    path that returns without going through an error conversion (must)"""
+    key = (fn.name, pattern, must)
+    if key in _summary_cache:
+        return _summary_cache[key]
+    _summary_cache[key] = False
+    g = CFG(fn)
+    hits = set()
+    for b in g.nodes:
+        c = g.callee(b)
+        if not c:
+            continue
+        if re.search(pattern, c):
+            hits.add(b)
+        elif depth < 3:
+            h = _resolve_helper(c)
+            if h is not None and h is not fn and _calls(h, pattern, must, depth + 1):
+                hits.add(b)
+    if not must:
+        res = bool(hits)
+    else:
+        stop = hits | set(b for b in g.nodes if g.callee(b) and re.search(r"FromResidual<.*>>::from_residual$", g.callee(b)))
+        seen, work, res = set(), [g.entry], True
+        while work:
+            b = work.pop()
+            if b in seen or b in stop:
+                continue
+            seen.add(b)
+            if b in g.real_returns:
+                res = False
+                break
+            work.extend(g.succ[b])
+        res = res and bool(hits)
+    _summary_cache[key] = res
+    return res
+
+
 class CFG:
     def __init__(self, fn):
         self.fn = fn
@@ -55,8 +131,22 @@ class CFG:
         # drop a trailing turbofish (`::<'_, '_>`), so patterns can anchor on the method name
         return re.sub(r"::<[^<>]*(<[^<>]*>[^<>]*)*>$", "", t["func"])
 
-    def blocks_calling(self, pattern):
-        return [b for b in self.nodes if self.callee(b) and re.search(pattern, self.callee(b))]
+    def blocks_calling(self, pattern, summary=None):
+        """blocks whose call matches `pattern`.  With summary='may' (and the crate's function table available) also blocks calling a
+        local helper that may make such a call - returned as a BlockSet, which no_path_query shrinks to the helpers that make the call
+        on every Ok path when the set is used as `avoid`.  Only for patterns that name one specific operation (a helper expansion of a
+        generic pattern such as `join_next` or `?` would mix up unrelated uses)."""
+        direct = [b for b in self.nodes if self.callee(b) and re.search(pattern, self.callee(b))]
+        extra = []
+        if FNS is not None and summary:
+            for b in self.nodes:
+                c = self.callee(b)
+                if not c or b in direct:
+                    continue
+                h = _resolve_helper(c)
+                if h is not None and h is not self.fn and _calls(h, pattern, summary == "must"):
+                    extra.append(b)
+        return BlockSet(direct + extra, [(pattern, self, direct + extra)]) if summary == "may" else direct + extra
 
     def line_of(self, b):
         return "%s: %s" % (b, (self.callee(b) or self.fn.blocks[b][1])[:110])
@@ -79,6 +169,12 @@ def no_path_query(cfg, script, label, src, dst, avoid, expect="unsat", kind="obl
     W = max(1, N.bit_length())
     pfx = re.sub(r"\W", "_", label)[:40] + "_%d" % len(script.queries)
     dst = set(dst)
+    if isinstance(avoid, BlockSet):
+        # an avoided event must certainly happen in the block: helpers count only when they make the call on every Ok path
+        must = set()
+        for pat_, cfg_, blocks_ in avoid.parts:
+            must |= set(blocks_) if pat_ == "__plain__" else set(cfg_.blocks_calling(pat_, summary="must"))
+        avoid = must
     avoid = set(avoid)
     # a path that starts in a block whose own event is to be avoided has already passed that event
     src = sorted(set(src) - (avoid - dst))
